@@ -113,9 +113,12 @@ inline ld gamma_q(ld a, ld x)
     return std::min<ld>(1, detail::gcf(a, x));
 }
 // two-sided exact p-value of a Gamma(shape a, scale 1) observation
-inline ld gamma_two_sided(ld a, ld x)
+// (values below `floor` are indistinguishable for the sampler, e.g. because
+// they underflow: the lower tail is evaluated at max(x, floor))
+inline ld gamma_two_sided(ld a, ld x, ld floor = 0)
 {
-    return std::min<ld>(1, 2 * std::min(gamma_p(a, x), gamma_q(a, x)));
+    return std::min<ld>(
+        1, 2 * std::min(gamma_p(a, std::max(x, floor)), gamma_q(a, x)));
 }
 inline ld chi2_sf(ld x, ld df)
 {
@@ -438,3 +441,196 @@ inline double bernstein_halfwidth(double v, double b, double n, double alpha)
 
 }  // namespace stats
 }  // namespace verif
+
+//---------------------------------------------------------------------------//
+// Counting / adversarial engine shared by the C15 harnesses.  Opt-in because
+// it needs the celeritas headers:  #define VERIF_STATS_WITH_ENGINE before
+// including this file.
+//
+// AdvEngine wraps a real XorwowRngEngine (seed / subsequence from the choice
+// sequence).  generate_canonical is specialised for it exactly like the
+// XorwowRngEngine specialisation (detail::GenerateCanonical32), but counts
+// canonical draws and replaces the draws at planned indices by planned
+// values (which are all of the form k * 2^-53, i.e. values the production
+// generator can return).  The underlying stream is always advanced, so the
+// rest of the stream is unchanged.
+//---------------------------------------------------------------------------//
+#ifdef VERIF_STATS_WITH_ENGINE
+#    include <cstdint>
+#    include <memory>
+
+#    include "corecel/OpaqueId.hh"
+#    include "corecel/Types.hh"
+#    include "corecel/data/CollectionStateStore.hh"
+#    include "celeritas/Types.hh"
+#    include "celeritas/random/XorwowRngData.hh"
+#    include "celeritas/random/XorwowRngEngine.hh"
+#    include "celeritas/random/XorwowRngParams.hh"
+#    include "celeritas/random/detail/GenerateCanonical32.hh"
+#    include "celeritas/random/distribution/GenerateCanonical.hh"
+
+namespace verif
+{
+namespace c15
+{
+struct Stream
+{
+    uint32_t seed = 0;
+    unsigned subseq = 0;
+};
+
+struct AdvPlan
+{
+    int n = 0;
+    long at[8] = {};
+    double val[8] = {};
+
+    void add(long a, double v)
+    {
+        if (n < 8)
+        {
+            at[n] = a;
+            val[n] = v;
+            ++n;
+        }
+    }
+    // sort by index, drop duplicates (first one wins)
+    void finish()
+    {
+        for (int i = 1; i < n; ++i)
+            for (int j = i; j > 0 && at[j] < at[j - 1]; --j)
+            {
+                std::swap(at[j], at[j - 1]);
+                std::swap(val[j], val[j - 1]);
+            }
+        int m = 0;
+        for (int i = 0; i < n; ++i)
+            if (m == 0 || at[i] != at[m - 1])
+            {
+                at[m] = at[i];
+                val[m] = val[i];
+                ++m;
+            }
+        n = m;
+    }
+};
+
+struct AdvEngine
+{
+    using result_type = unsigned int;
+    static constexpr result_type min() { return 0u; }
+    static constexpr result_type max() { return 0xffffffffu; }
+
+    celeritas::XorwowRngEngine base;
+    AdvPlan plan;
+    long raw = 0;  // 32-bit outputs consumed
+    long canon = 0;  // canonical draws consumed
+    int next = 0;  // next planned entry (== number of forced draws so far)
+    bool last_forced = false;
+    double last_value = -1;
+    bool any_forced_zero = false;
+
+    result_type operator()()
+    {
+        ++raw;
+        return base();
+    }
+};
+
+using RngStore
+    = celeritas::CollectionStateStore<celeritas::XorwowRngStateData,
+                                      celeritas::MemSpace::host>;
+inline std::unique_ptr<celeritas::XorwowRngParams> g_rng_params;
+inline std::unique_ptr<RngStore> g_rng_store;
+
+inline void init_engine_pool()
+{
+    if (g_rng_params)
+        return;
+    g_rng_params = std::make_unique<celeritas::XorwowRngParams>(20240923u);
+    g_rng_store = std::make_unique<RngStore>(
+        g_rng_params->host_ref(), celeritas::StreamId{0}, 1);
+}
+
+struct EngineSnapshot
+{
+    celeritas::XorwowState st;
+    long raw, canon;
+    int next;
+    bool last_forced;
+    double last_value;
+    bool any_forced_zero;
+};
+
+// One live holder at a time (single state slot)
+struct EngineHolder
+{
+    AdvEngine e;
+
+    EngineHolder(Stream s, AdvPlan const& plan)
+        : e{celeritas::XorwowRngEngine(g_rng_params->host_ref(),
+                                       g_rng_store->ref(),
+                                       celeritas::TrackSlotId{0}),
+            plan}
+    {
+        celeritas::XorwowRngInitializer init;
+        init.seed = {s.seed};
+        init.subsequence = s.subseq;
+        init.offset = 0;
+        e.base = init;
+    }
+    celeritas::XorwowState& state()
+    {
+        return g_rng_store->ref().state[celeritas::TrackSlotId{0}];
+    }
+    EngineSnapshot snapshot()
+    {
+        return {this->state(),
+                e.raw,
+                e.canon,
+                e.next,
+                e.last_forced,
+                e.last_value,
+                e.any_forced_zero};
+    }
+    void restore(EngineSnapshot const& s)
+    {
+        this->state() = s.st;
+        e.raw = s.raw;
+        e.canon = s.canon;
+        e.next = s.next;
+        e.last_forced = s.last_forced;
+        e.last_value = s.last_value;
+        e.any_forced_zero = s.any_forced_zero;
+    }
+};
+}  // namespace c15
+}  // namespace verif
+
+namespace celeritas
+{
+template<class T>
+class GenerateCanonical<verif::c15::AdvEngine, T>
+{
+  public:
+    using real_type = T;
+    using result_type = T;
+
+    result_type operator()(verif::c15::AdvEngine& e)
+    {
+        T v = detail::GenerateCanonical32<T>()(e);
+        long i = e.canon++;
+        e.last_forced = false;
+        if (e.next < e.plan.n && e.plan.at[e.next] == i)
+        {
+            v = T(e.plan.val[e.next++]);
+            e.last_forced = true;
+            if (v == 0)
+                e.any_forced_zero = true;
+        }
+        e.last_value = double(v);
+        return v;
+    }
+};
+}  // namespace celeritas
+#endif  // VERIF_STATS_WITH_ENGINE
